@@ -274,7 +274,7 @@ def replay_timeformat(cases):
                     ObsTime.setReadFormat(f)
                     got_txt = str(ObsTime(t["y"], t["mo"], t["d"], t["h"], t["mi"], t["s"], t["ms"]))
                     if got_txt != want_txt:
-                        viol.append(("timeformat/print", "format %r: %s printed as %r, specification %r" % (f, t, got_txt, want_txt), {"fmt": f, "t": t}))
+                        viol.append(("growth:timeformat/print", "format %r: %s printed as %r, specification %r" % (f, t, got_txt, want_txt), {"fmt": f, "t": t}))
                         continue
                     r = ObsTime.readTimestamp(got_txt)
                     got = {"y": r.year, "mo": r.month, "d": r.day, "h": r.hour, "mi": r.min, "s": r.sec, "ms": r.ms}
